@@ -140,7 +140,43 @@ pub fn gen_c01(sh: &mut Shards, o: &Opts) -> serde_json::Value {
             }
         }
     }
+    // large images (position-dependent code paths): converted whole, probed at chunk boundaries and random positions
+    for (k, (c, st)) in all_matrix_cfgs().into_iter().enumerate().filter(|(k, _)| k % 23 == 0) {
+        let mut rng = Rng::new(o.seed, 0x0101_b160 + k as u64);
+        let (w, h) = crate::util::BIG;
+        let maxc = (1u64 << c.n) - 1;
+        let px: Vec<[u16; 3]> = (0..w * h).map(|_| [rng.below(maxc + 1) as u16, rng.below(maxc + 1) as u16, rng.below(maxc + 1) as u16]).collect();
+        let idx = crate::util::probe_indices(w * h, w, &mut rng);
+        if st == 8 {
+            emit_dec_probe::<u8>(sh, &c, st, &px, w, h, &idx);
+        } else {
+            emit_dec_probe::<u16>(sh, &c, st, &px, w, h, &idx);
+        }
+        evals += (w * h) as u64;
+    }
     serde_json::json!({"pixels": evals, "configs": cfgs})
+}
+
+fn emit_dec_probe<T: Pixel>(sh: &mut Shards, c: &Cfg, st: u8, px: &[[u16; 3]], w: usize, h: usize, idx: &[usize]) {
+    let yuv: Yuv<T> = yuv444::<T>(px, w, h, c).expect("ctor");
+    let sel: Vec<[u16; 3]> = idx.iter().map(|&i| px[i]).collect();
+    let mut s = String::new();
+    let _ = write!(s, "\"ev\":\"dec\",\"probe\":1,\"cfg\":{},\"st\":{st},\"w\":{w},\"h\":{h},\"px\":", c.json());
+    list(&mut s, &sel, |o, p| {
+        let _ = write!(o, "[{},{},{}]", p[0], p[1], p[2]);
+    });
+    match Rgb::try_from(&yuv) {
+        Ok(rgb) if rgb.data().len() == px.len() => {
+            let out: Vec<[f32; 3]> = idx.iter().map(|&i| rgb.data()[i]).collect();
+            let _ = write!(s, ",\"res\":\"ok\",\"wo\":{},\"ho\":{},\"tco\":{},\"cpo\":{},\"out\":", rgb.width(), rgb.height(), rgb.transfer() as u8, rgb.primaries() as u8);
+            list(&mut s, &out, px_fx);
+        }
+        Ok(_) => s.push_str(",\"res\":\"shape\""),
+        Err(e) => {
+            let _ = write!(s, ",\"res\":\"{}\"", crate::frames::err_name_conv(e));
+        }
+    }
+    sh.emit(&s);
 }
 
 // ---------------------------------------------------------------------------------------------
@@ -272,6 +308,42 @@ pub fn gen_c02(sh: &mut Shards, o: &Opts) -> serde_json::Value {
                 emit_enc::<u16>(sh, &c, st, img, w, h, "enc", 13, 1);
             }
         }
+    }
+    for (k, (c, st)) in all_matrix_cfgs().into_iter().enumerate().filter(|(k, _)| k % 23 == 5) {
+        let mut rng = Rng::new(o.seed, 0x0202_b160 + k as u64);
+        let (w, h) = crate::util::BIG;
+        let px: Vec<[f32; 3]> = (0..w * h).map(|_| [rng.f32_in(-0.5, 1.5), rng.f32_in(-0.5, 1.5), rng.f32_in(-0.5, 1.5)]).collect();
+        let idx = crate::util::probe_indices(w * h, w, &mut rng);
+        let sel: Vec<[f32; 3]> = idx.iter().map(|&i| px[i]).collect();
+        let rgb = Rgb::new(px, w, h, tc(13), cp(1)).expect("rgb ctor");
+        let mut s = String::new();
+        let _ = write!(s, "\"ev\":\"enc\",\"probe\":1,\"cfg\":{},\"st\":{st},\"w\":{w},\"h\":{h},\"rgb\":", c.json());
+        list(&mut s, &sel, px_fx);
+        let mut fin = |s: &mut String, r: Result<(usize, usize, String, [Vec<u16>; 3]), String>| match r {
+            Ok((wo, ho, cfgo, planes)) => {
+                let _ = write!(s, ",\"res\":\"ok\",\"wo\":{wo},\"ho\":{ho},\"cfgo\":{cfgo},\"out\":[");
+                for p in 0..3 {
+                    if p > 0 {
+                        s.push(',');
+                    }
+                    let v: Vec<u16> = idx.iter().map(|&i| planes[p][i]).collect();
+                    list(s, &v, |o, x| {
+                        let _ = write!(o, "{x}");
+                    });
+                }
+                s.push(']');
+            }
+            Err(e) => {
+                let _ = write!(s, ",\"res\":\"{e}\"");
+            }
+        };
+        if st == 8 {
+            fin(&mut s, Yuv::<u8>::try_from((&rgb, c.yuv_config())).map(|y| (y.width(), y.height(), cfg_json_of(&y.config()), [plane_samples(&y, 0), plane_samples(&y, 1), plane_samples(&y, 2)])).map_err(|e| crate::frames::err_name_conv(e).to_string()));
+        } else {
+            fin(&mut s, Yuv::<u16>::try_from((&rgb, c.yuv_config())).map(|y| (y.width(), y.height(), cfg_json_of(&y.config()), [plane_samples(&y, 0), plane_samples(&y, 1), plane_samples(&y, 2)])).map_err(|e| crate::frames::err_name_conv(e).to_string()));
+        }
+        sh.emit(&s);
+        evals += (w * h) as u64;
     }
     serde_json::json!({"pixels": evals, "configs": cfgs})
 }
